@@ -94,7 +94,13 @@ fn split_text_raw(text: &str) -> Vec<String> {
             prev_blank = true;
             continue;
         }
-        if col0 && prev_blank && !closer && !cur.trim().is_empty() {
+        // a file header made of `#` comment lines ends where the imports begin, blank line or not (the blank
+        // line after the python header belongs to the custom-type import, which may be excluded)
+        let header_ends = col0
+            && (line.starts_with("from ") || line.starts_with("import "))
+            && !cur.trim().is_empty()
+            && cur.lines().all(|l| l.starts_with('#') || l.trim().is_empty());
+        if (col0 && prev_blank && !closer && !cur.trim().is_empty()) || header_ends {
             items.push(std::mem::take(&mut cur));
         }
         cur.push_str(line);
